@@ -232,9 +232,9 @@ func partition(r *gen.Rng, chunks []string, k int) []string {
 func runC07(c *core.Ctx) {
 	const thm = "C07_* (props/C07.v); model op load = Ops.dump_load_with (prelude regenerated from /repo)"
 	c.ReplayKnown()
-	nSchemas := 300
+	nSchemas := 600
 	if !c.Quick {
-		nSchemas = 5000
+		nSchemas = 10000
 	}
 	type cs struct {
 		srcs   []string
